@@ -71,13 +71,13 @@ def _receives_line_table(an: Analysis, f: FunctionInfo) -> bool:
 
 def run(an: Analysis, rep):
     rep.explanation = (
-        "Decides ONLY the format constants of the line-table codec, per format (lnotab / 3.10 linetable), by evaluating the extracted "
-        "predicates over the whole value domain the format allows (Objects/lnotab_notes.txt): the set of address deltas at which "
-        "collapse_items merges an entry equals the delta expand_items emits in continuation entries equals CPython's limit; likewise "
-        "for line deltas; each split loop tests, emits and subtracts one and the same constant; the -128 <-> None sentinel is applied "
-        "iff the format is linetable; bytes are read and written as (unsigned address delta, signed line delta) pairs. All arithmetic "
-        "on tables - items_to_mapping, mapping_to_items, the cursor logic of collapse_items, zero-width entries, no-line runs, "
-        "trailing entries - quantifies over integer sequences and is NOT decided by this check (DESIGN section 8)."
+        "Decides necessary conditions of the line-table codec, per format (lnotab / 3.10 linetable): the format constants, by evaluating the "
+        "extracted predicates over the whole value domain the format allows (Objects/lnotab_notes.txt) - merge thresholds = split emissions = "
+        "CPython's limits, split-loop coherence / order / shortcuts, the -128 <-> None marker also in continuation entries, (unsigned, signed) "
+        "byte pairing; and shape facts of the two mapping stages: the decoded line is a running sum of deltas that a no-line run neither moves "
+        "nor resets, the builder takes deltas against the last real line, the lnotab walk cannot end while entries remain, lines are never "
+        "tested by truthiness, the first-line shift covers every line. Arithmetic over integer sequences (cursor logic of collapse_items on "
+        "merged entries, loop bounds computed from sums, zero-width entries) is NOT decided (DESIGN section 8)."
     )
     rep.rule("R10.1", "merge thresholds = split emissions = CPython limits, per format", 6)
     rep.rule("R10.2", "each split loop uses one constant for test, emission and decrement", 3)
@@ -91,7 +91,7 @@ def run(an: Analysis, rep):
     rep.run(c01.r015_order, an, SharedRules(rep, "R10.O", "the shift by the first line number covers every line of the mapping, the trailing entry included (shared with C01's R01.5)"))
     rep.run(truthiness_rule, an, rep, "R10.T", ["from_code", "to_code"], [("Instruction", "line_number"), ("AdditionalLine", "line")])
     rep.assumptions += ["format limits as in Objects/lnotab_notes.txt (reference/contracts.py LINE_LIMITS)"]
-    rep.extra["not_decided"] = "table arithmetic (items_to_mapping, mapping_to_items, cursor logic, zero-width entries, no-line runs, trailing entries)"
+    rep.extra["not_decided"] = "table arithmetic over integer sequences (cursor logic of collapse_items on merged entries, loop bounds computed from sums, zero-width entries)"
 
 
 def format_rules(an: Analysis, rep):
